@@ -543,9 +543,107 @@ def translate_env(repo, out):
     out.append("")
 
 
+# ------------------------------------------------------------------ connector/ssh.py: the ssh command line
+def translate_ssh(repo, out):
+    tree = parse(repo, "tbot/machine/connector/ssh.py")
+    f = find_func(tree, "_connect", "SSHConnector")
+    need(len(f.body) == 1 and isinstance(f.body[0], ast.With), "SSHConnector._connect is not one with-block")
+    body = f.body[0].body
+
+    def word(e, env):
+        """one argv element -> Coq term of type list N"""
+        if isinstance(e, ast.Constant) and isinstance(e.value, str):
+            return codepoints(e.value)
+        src = ast.unparse(e)
+        if src in env:
+            return env[src]
+        if isinstance(e, ast.JoinedStr):
+            parts = []
+            for v in e.values:
+                if isinstance(v, ast.Constant):
+                    parts.append(codepoints(v.value))
+                else:
+                    need(isinstance(v, ast.FormattedValue) and v.conversion == -1 and v.format_spec is None and ast.unparse(v.value) in env,
+                         f"ssh command line: cannot translate the f-string part {ast.unparse(v)!r}")
+                    parts.append(env[ast.unparse(v.value)])
+            return "(" + " ++ ".join(parts) + ")"
+        raise Untranslatable(f"ssh command line: cannot translate the word {src!r}")
+
+    def wlist(e, env):
+        need(isinstance(e, ast.List), f"ssh command line: expected a list literal, got {ast.unparse(e)!r}")
+        return "[" + "; ".join(word(x, env) for x in e.elts) + "]" if e.elts else "[]"
+
+    # the authenticator chain
+    chain = [n for n in body if isinstance(n, ast.If) and ast.unparse(n.test).startswith("isinstance(authenticator,")]
+    need(len(chain) == 1, "SSHConnector._connect does not have one isinstance(authenticator, ...) chain")
+    branches, node = {}, chain[0]
+    while True:
+        t = node.test
+        need(isinstance(t, ast.Call) and ast.unparse(t.func) == "isinstance" and ast.unparse(t.args[0]) == "authenticator", "unexpected test in the authenticator chain")
+        kind = ast.unparse(t.args[1])
+        need(len(node.body) == 1 and isinstance(node.body[0], ast.Assign) and ast.unparse(node.body[0].targets[0]) == "cmd", f"the {kind} branch does not just assign cmd")
+        branches[kind] = node.body[0].value
+        if len(node.orelse) == 1 and isinstance(node.orelse[0], ast.If):
+            node = node.orelse[0]
+            continue
+        need(any(isinstance(x, ast.Raise) for x in node.orelse), "the authenticator chain does not end by raising")
+        break
+    need(set(branches) == {"auth.NoneAuthenticator", "auth.PrivateKeyAuthenticator", "auth.PasswordAuthenticator"}, f"unexpected authenticator kinds {sorted(branches)}")
+    a_none = wlist(branches["auth.NoneAuthenticator"], {})
+    a_key = wlist(branches["auth.PrivateKeyAuthenticator"], {"authenticator.get_key_for_host(h)": "k"})
+    a_pass = wlist(branches["auth.PasswordAuthenticator"], {"authenticator.password": "pw"})
+    # hk_disable = [...] if self.ignore_hostkey else []
+    hk = [n for n in body if isinstance(n, ast.Assign) and ast.unparse(n.targets[0]) == "hk_disable"]
+    need(len(hk) == 1 and isinstance(hk[0].value, ast.IfExp) and ast.unparse(hk[0].value.test) == "self.ignore_hostkey", "hk_disable is not `[...] if self.ignore_hostkey else [...]`")
+    hk_yes, hk_no = wlist(hk[0].value.body, {}), wlist(hk[0].value.orelse, {})
+    # multiplexing = []; if self.use_multiplexing: multiplexing += [...] ...
+    mx0 = [n for n in body if isinstance(n, ast.Assign) and ast.unparse(n.targets[0]) == "multiplexing"]
+    need(len(mx0) == 1 and wlist(mx0[0].value, {}) == "[]", "multiplexing does not start as []")
+    mxif = [n for n in body if isinstance(n, ast.If) and ast.unparse(n.test) == "self.use_multiplexing"]
+    need(len(mxif) == 1 and not mxif[0].orelse, "no single `if self.use_multiplexing:` without else")
+    adds = []
+    for st in mxif[0].body:
+        if isinstance(st, ast.AugAssign):
+            need(ast.unparse(st.target) == "multiplexing" and isinstance(st.op, ast.Add), "unexpected augmented assignment in the multiplexing block")
+            adds.append(wlist(st.value, {"multiplexing_dir.at_host(self.host)": "muxdir"}))
+        else:
+            need(ast.unparse(st) in ("multiplexing_dir = self.host.workdir / '.ssh-multi'", "self.host.exec0('mkdir', '-p', multiplexing_dir)"),
+                 f"unexpected statement in the multiplexing block: {ast.unparse(st)!r}")
+    need(all(isinstance(x, (ast.AugAssign, ast.Assign, ast.Expr)) for x in mxif[0].body), "unexpected statement kind in the multiplexing block")
+    # the call
+    withs = [n for n in body if isinstance(n, ast.With)]
+    need(len(withs) == 1 and len(withs[0].items) == 1, "no single inner with-block opening the channel")
+    call = withs[0].items[0].context_expr
+    need(isinstance(call, ast.Call) and ast.unparse(call.func) == "h.open_channel" and not call.keywords, "the channel is not opened with h.open_channel(...)")
+    segs = []
+    for a in call.args:
+        if isinstance(a, ast.Starred):
+            v = a.value
+            if isinstance(v, ast.Name):
+                need(v.id in ("cmd", "hk_disable", "multiplexing"), f"unexpected *{v.id} in the ssh command line")
+                segs.append({"cmd": "CMD", "hk_disable": "HK", "multiplexing": "MX"}[v.id])
+            elif isinstance(v, ast.List):
+                segs.append(wlist(v, {"str(self.port)": "c_port c"}))
+            elif isinstance(v, ast.ListComp):
+                need(ast.unparse(v) == "[arg for opt in self.ssh_config for arg in ['-o', opt]]", f"unexpected comprehension {ast.unparse(v)!r}")
+                segs.append("flat_map (fun opt => [" + codepoints("-o") + "; opt]) (c_opts c)")
+            else:
+                raise Untranslatable(f"unexpected starred argument {ast.unparse(a)!r}")
+        else:
+            segs.append("[" + word(a, {"self.username": "c_user c", "self.hostname": "c_host c"}) + "]")
+    need(segs.count("CMD") == 1 and segs.count("HK") == 1 and segs.count("MX") == 1, "cmd, hk_disable and multiplexing are not each passed once")
+    sub = {"CMD": f"(match c_auth c with ANone => {a_none} | AKey k => {a_key} | APass pw => {a_pass} end)",
+           "HK": f"(if c_ign c then {hk_yes} else {hk_no})",
+           "MX": "(if c_mux c then " + " ++ ".join(adds) + " else [])"}
+    out.append("(* from tbot/machine/connector/ssh.py: SSHConnector._connect *)")
+    out.append("Definition gen_ssh_argv (c : scfg) (muxdir : list N) : list (list N) :=")
+    out.append("  (" + "\n  ++ ".join(sub.get(x, x) for x in segs) + ").")
+    out.append("")
+
+
 def translate(repo):
     out = ["(* GENERATED by tools/translate.py from the current source of the repository -- do not edit *)",
-           "From TV Require Import Base Regex Channel LogEvent Sh.", ""]
+           "From TV Require Import Base Regex Channel LogEvent Sh SshScp.", ""]
     translate_hush(repo, out)
     translate_shell(repo, "tbot/machine/linux/bash.py", "Bash", "BASH", out)
     translate_shell(repo, "tbot/machine/linux/ash.py", "Ash", "ASH", out)
@@ -556,6 +654,7 @@ def translate(repo):
     translate_path(repo, out)
     translate_status(repo, out)
     translate_env(repo, out)
+    translate_ssh(repo, out)
     return "\n".join(out) + "\n"
 
 
